@@ -260,3 +260,25 @@ func (e *Env) ClaimNames() []string {
 	sort.Strings(out)
 	return out
 }
+
+
+// KubeletSetReady sets the node's Ready condition to "True", "False", "Unknown" (kubelet stopped heart-beating, as the
+// node-lifecycle controller reports it) or removes the condition altogether ("absent").
+func (e *Env) KubeletSetReady(nodeName, status string) {
+	n := &corev1.Node{}
+	if e.API.Raw.Get(context.Background(), types.NamespacedName{Name: nodeName}, n) != nil {
+		return
+	}
+	var conds []corev1.NodeCondition
+	for _, c := range n.Status.Conditions {
+		if c.Type != corev1.NodeReady {
+			conds = append(conds, c)
+		}
+	}
+	if status != "absent" {
+		now := metav1.NewTime(e.Clock.Now())
+		conds = append(conds, corev1.NodeCondition{Type: corev1.NodeReady, Status: corev1.ConditionStatus(status), Reason: "Kubelet" + status, LastHeartbeatTime: now, LastTransitionTime: now})
+	}
+	n.Status.Conditions = conds
+	e.Apply(n)
+}
